@@ -62,3 +62,59 @@ Definition check_axis (m : Mesh QcOps) (a : axis) (centers sizes : list Qc) : bo
   && all_close tol9 (map (mDX QcOps m a) (seq 0 (n + 2))) sizes.
 Definition check_vol (m : Mesh QcOps) (vols : list Qc) : bool :=
   all_close tol9 (map (mvol QcOps m) (interior_cells QcOps m)) vols.
+
+(* ---- boundary conditions ---- *)
+From PFV Require Import Boundary.
+(* index of a ghost cell's boundary face in the (row-major) coefficient arrays of that side *)
+Definition bidx (m : Mesh QcOps) (a : axis) (c : cell) : nat :=
+  let '(i, j, k) := c in
+  let ny := ext m AY in let nz := ext m AZ in
+  match a with
+  | AX => (pred j * nz + pred k)%nat
+  | AY => (pred i * nz + pred k)%nat
+  | AZ => (pred i * ny + pred j)%nat
+  end.
+(* coefficient lists per axis: [a_lo; b_lo; c_lo; a_hi; b_hi; c_hi] *)
+Definition bc_pick (l : list (list Qc)) (n : nat) : list Qc := nth n l [].
+Definition mk_bcs (m : Mesh QcOps) (px py pz : bool) (cx cy cz : list (list Qc)) : BCs QcOps :=
+  let per := fun a => match a with AX => px | AY => py | AZ => pz end in
+  let co := fun a => match a with AX => cx | AY => cy | AZ => cz end in
+  mkBCs QcOps
+    (fun a hi c => nthq (bidx m a c) (bc_pick (co a) (if hi then 3 else 0)))
+    (fun a hi c => nthq (bidx m a c) (bc_pick (co a) (if hi then 4 else 1)))
+    (fun a hi c => nthq (bidx m a c) (bc_pick (co a) (if hi then 5 else 2)))
+    per.
+
+(* sum duplicate columns of a row *)
+Fixpoint row_insert (c : nat) (v : Qc) (l : list (nat * Qc)) : list (nat * Qc) :=
+  match l with
+  | [] => [(c, v)]
+  | (c', w) :: l' => if Nat.eqb c c' then (c', Qcplus w v) :: l' else (c', w) :: row_insert c v l'
+  end.
+Definition row_norm (l : list (nat * Qc)) : list (nat * Qc) :=
+  fold_left (fun acc cv => row_insert (fst cv) (snd cv) acc) l [].
+Definition check_bc_matrix (m : Mesh QcOps) (bc : BCs QcOps) (impl : list (list (nat * Qc))) : bool :=
+  check_matrix m (fun r => row_norm (bc_row QcOps m bc (cell_of_no QcOps m r))) impl.
+Definition check_bc_rhs (m : Mesh QcOps) (bc : BCs QcOps) (impl : list Qc) : bool :=
+  check_cvals m (bc_rhs QcOps m bc) impl.
+Definition check_ghosts (m : Mesh QcOps) (bc : BCs QcOps) (phi : cvar QcOps) (impl : list Qc) : bool :=
+  check_cvals m (with_boundaries QcOps m bc phi) impl.
+
+(* ---- solve: residual of the MODEL system at the IMPLEMENTATION's answer ---- *)
+From PFV Require Import Solver.
+Definition qsum (l : list Qc) : Qc := fold_right Qcplus Q0 l.
+Definition resid_ok (m : Mesh QcOps) (bc : BCs QcOps) (ts : list (term QcOps)) (x : cvar QcOps) : list bool :=
+  map (fun c =>
+    if interior QcOps m c then
+      let sc := Qcplus (Q2Qc 1) (Qcplus (qsum (map (fun t => Qcabs (term_lhs QcOps m t x c)) ts))
+                                        (qsum (map (fun t => Qcabs (term_rhs QcOps m t c)) ts))) in
+      close_abs tol9 sc (sys_lhs QcOps m ts x c) (sys_rhs QcOps m ts c)
+    else
+      let row := bc_row QcOps m bc c in
+      let sc := Qcplus (Q2Qc 1) (Qcplus (qsum (map (fun cv => Qcabs (Qcmult (snd cv) (x (cell_of_no QcOps m (fst cv))))) row))
+                                        (Qcabs (bc_rhs QcOps m bc c))) in
+      close_abs tol9 sc (bc_lhs QcOps m bc x c) (bc_rhs QcOps m bc c)) (all_cells m).
+Definition check_solution (m : Mesh QcOps) (bc : BCs QcOps) (ts : list (term QcOps)) (x : cvar QcOps) : bool :=
+  forallb (fun b => b) (resid_ok m bc ts x).
+Definition check_explicit (m : Mesh QcOps) (bc : BCs QcOps) (old : cvar QcOps) (dt : Qc) (rhs : cvar QcOps) (impl : list Qc) : bool :=
+  check_cvals m (explicit_step QcOps m bc old dt rhs) impl.
